@@ -48,7 +48,9 @@ pub fn check(ctx: &Ctx) -> i32 {
         for ac in [ACodec::AacLc, ACodec::Opus] {
             for fast in [true, false] {
                 for v0 in [0.0, 1.0 / 30.0, 1.0, 10.0] {
-                    for cts0 in [0.0, 2.0 / 30.0] {
+                    // (-1.0 marks the third shape: first frame presented at its decode time, every
+                    // later frame presented one frame before it is decoded - negative offsets)
+                    for cts0 in [0.0, 2.0 / 30.0, -1.0] {
                         if !ctx.thorough && codec != VCodec::H264 && codec != VCodec::Av1 && v0 > 0.5 {
                             continue;
                         }
@@ -72,17 +74,19 @@ pub fn check(ctx: &Ctx) -> i32 {
                         }
                         // video in decode order at 30 fps; first frame presented cts0 later
                         let mut ops = vec![];
-                        let first_pts = it.v0 + it.cts0;
+                        let first_pts = it.v0 + it.cts0.max(0.0);
                         for i in 0..nv {
-                            let dts = it.v0 + i as f64 / 30.0;
-                            let pts = if it.cts0 > 0.0 {
+                            let dts = if it.cts0 < 0.0 && i > 0 { it.v0 + (i + 1) as f64 / 30.0 } else { it.v0 + i as f64 / 30.0 };
+                            let pts = if it.cts0 < 0.0 {
+                                it.v0 + i as f64 / 30.0
+                            } else if it.cts0 > 0.0 {
                                 // I P B: the first frame is presented two frames late, later ones in between
                                 if i == 0 { first_pts } else { dts + 3.0 / 30.0 }
                             } else {
                                 dts
                             };
                             let (d, _) = video_frame(it.cfg.codec, i == 0, i == 0, i as u32 + 1, 5);
-                            ops.push(if it.cts0 > 0.0 { Op::WVD { pts: T(pts), dts: T(dts), data: Bytes::new(d), key: i == 0 } } else { Op::WV { pts: T(pts), data: Bytes::new(d), key: i == 0 } });
+                            ops.push(if it.cts0 != 0.0 { Op::WVD { pts: T(pts), dts: T(dts), data: Bytes::new(d), key: i == 0 } } else { Op::WV { pts: T(pts), data: Bytes::new(d), key: i == 0 } });
                         }
                         let mut ok = true;
                         let mut with_reject = vec![];
@@ -303,7 +307,7 @@ pub fn check(ctx: &Ctx) -> i32 {
         &tally,
         Meta {
             level: "model_checking",
-            rule: format!("every A/V history over: first video decode time {{0, 1/30, 1, 10 s}} x first video composition offset {{0, +2 frames}} x audio start minus first video presentation {{0, 1 tick, 1024/48000, 0.25, 3 s}} x 2-3 video frames x 2-3 audio frames x audio step pattern {{1024/48000, 1024/44100, 0.02, 0, (0, 1024/48000), (0.02, 0), (0.5, 0.02), (0.003, 0.5): pauses and overlaps relative to the packets' coded durations}}, plus runs of 8 and 12 audio frames at the 48 kHz and 44.1 kHz AAC spacings, plus every audio step sequence of 2..{jmax} steps over {{600, 1200, 1800, 3000}} ticks ({n_jitter} sequences x AAC/Opus), plus every standard AAC sample rate (7350 .. 96000 Hz) x 3 sub-sample displacement patterns (0-30 microseconds) x 2 start times x both layouts, plus {n_conv} encode_video/encode_audio histories (every sequence of 2..5 audio frame lengths over Opus {{10, 20, 40, 60 ms}} and AAC {{1024, 2048}}), plus 3 video + 3 audio frames starting 47721 s .. 1e9 s from zero (both sides of 2^32 and 2^33 ticks, audio runs that straddle 2^32 ticks) x plain/reordered video x 5 audio step patterns (two of them 7900 s and 8000 s apart: audio tracks around 2^31 ticks long) x 2 leads x H.264/VP9, also from 0, plus four long histories (66 000 audio frames 1920 ticks apart, 66 000 video frames 3000 ticks apart, both layouts), x {{AAC, Opus}} x both layouts x codecs; executed on the real muxer; per-track presentation timelines rebuilt from stts/ctts (+ edit list if present, empty edits and media_time honoured) and every audio sample's presentation time relative to the first video frame compared with the submitted difference (tolerance 1 tick). Distinct by output bytes."),
+            rule: format!("every A/V history over: first video decode time {{0, 1/30, 1, 10 s}} x video shape {{no offsets, first frame +2 frames, later frames -1 frame}} x audio start minus first video presentation {{0, 1 tick, 1024/48000, 0.25, 3 s}} x 2-3 video frames x 2-3 audio frames x audio step pattern {{1024/48000, 1024/44100, 0.02, 0, (0, 1024/48000), (0.02, 0), (0.5, 0.02), (0.003, 0.5): pauses and overlaps relative to the packets' coded durations}}, plus runs of 8 and 12 audio frames at the 48 kHz and 44.1 kHz AAC spacings, plus every audio step sequence of 2..{jmax} steps over {{600, 1200, 1800, 3000}} ticks ({n_jitter} sequences x AAC/Opus), plus every standard AAC sample rate (7350 .. 96000 Hz) x 3 sub-sample displacement patterns (0-30 microseconds) x 2 start times x both layouts, plus {n_conv} encode_video/encode_audio histories (every sequence of 2..5 audio frame lengths over Opus {{10, 20, 40, 60 ms}} and AAC {{1024, 2048}}), plus 3 video + 3 audio frames starting 47721 s .. 1e9 s from zero (both sides of 2^32 and 2^33 ticks, audio runs that straddle 2^32 ticks) x plain/reordered video x 5 audio step patterns (two of them 7900 s and 8000 s apart: audio tracks around 2^31 ticks long) x 2 leads x H.264/VP9, also from 0, plus four long histories (66 000 audio frames 1920 ticks apart, 66 000 video frames 3000 ticks apart, both layouts), x {{AAC, Opus}} x both layouts x codecs; executed on the real muxer; per-track presentation timelines rebuilt from stts/ctts (+ edit list if present, empty edits and media_time honoured) and every audio sample's presentation time relative to the first video frame compared with the submitted difference (tolerance 1 tick). Distinct by output bytes."),
             bound: "2-3 video frames, 2-3 audio frames (8 and 12 for the two constant spacings)".into(),
             exhaustive: true,
             assumptions: vec!["the known finding C09/no-start-offset is matched only when neither track has an edit list and every audio sample is off by exactly the lost start offset; any other deviation is reported as a violation".into()],
